@@ -104,7 +104,7 @@ func (a ConstInt8) GetN() int {
 /* json
  * -------------------------------------------------------------------------- */
 func (obj ConstInt8) MarshalJSON() ([]byte, error) {
-  return json.Marshal(obj)
+  return json.Marshal(int8(obj))
 }
 /* math
  * -------------------------------------------------------------------------- */
